@@ -41,6 +41,7 @@ IsNormal(f, x) == 0 < x.e /\ x.e < f.emax
 FpClass(f, x) == IF IsNaN(f, x) THEN 0 ELSE IF IsInf(f, x) THEN 1 ELSE IF IsZero(x) THEN 2
                  ELSE IF IsSubnormal(x) THEN 3 ELSE 4
 
+IsSNaN(f, x) == IsNaN(f, x) /\ (IF HW(f) > 0 THEN x.h < Pow2(HW(f) - 1) ELSE x.l < Pow2(f.W - 1))   \* signaling NaN
 \* equality of results: bit-identical, except that any NaN equals any NaN (payload/sign not compared)
 Same(f, a, b) == IF IsNaN(f, a) \/ IsNaN(f, b) THEN IsNaN(f, a) /\ IsNaN(f, b) ELSE a = b
 
@@ -169,14 +170,17 @@ SignBit(x) == x.s
 
 (* ----------------------------------------------- fmin / fmax ----------------------------------------------- *)
 \* C F.10.9.2/3: one NaN -> the other argument; the sign of a zero result among +-0 is not specified (a set)
+\* (IEC 60559 minNum/maxNum: a signaling NaN operand may also yield a NaN - glibc does)
 FMaxOK(f, x, y, r) ==
     IF IsNaN(f, x) /\ IsNaN(f, y) THEN IsNaN(f, r)
+    ELSE IF (IsSNaN(f, x) \/ IsSNaN(f, y)) /\ IsNaN(f, r) THEN TRUE
     ELSE IF IsNaN(f, x) THEN r = y
     ELSE IF IsNaN(f, y) THEN r = x
     ELSE IF IsZero(x) /\ IsZero(y) THEN r \in {x, y}
     ELSE r = (IF Lt(x, y) THEN y ELSE x)
 FMinOK(f, x, y, r) ==
     IF IsNaN(f, x) /\ IsNaN(f, y) THEN IsNaN(f, r)
+    ELSE IF (IsSNaN(f, x) \/ IsSNaN(f, y)) /\ IsNaN(f, r) THEN TRUE
     ELSE IF IsNaN(f, x) THEN r = y
     ELSE IF IsNaN(f, y) THEN r = x
     ELSE IF IsZero(x) /\ IsZero(y) THEN r \in {x, y}
@@ -393,9 +397,12 @@ SpecialHypot(f, x, y) ==
     IF IsInf(f, x) \/ IsInf(f, y) THEN RVal(Inf(f, 0))                             \* even if the other is NaN
     ELSE IF IsNaN(f, x) \/ IsNaN(f, y) THEN RNaN
     ELSE IF IsZero(y) THEN RVal(FAbs(x)) ELSE IF IsZero(x) THEN RVal(FAbs(y)) ELSE RNone
+\* three arguments [c.math.hypot3]: C++ states no Annex-F rule for infinities (libstdc++ returns NaN for
+\* hypot(0, 0, inf)); +infinity (IEC 60559) and NaN are both accepted there
 SpecialHypot3(f, x, y, z) ==
-    IF IsInf(f, x) \/ IsInf(f, y) \/ IsInf(f, z) THEN RVal(Inf(f, 0))
-    ELSE IF IsNaN(f, x) \/ IsNaN(f, y) \/ IsNaN(f, z) THEN RNaN ELSE RNone
+    IF IsInf(f, x) \/ IsInf(f, y) \/ IsInf(f, z) THEN [k |-> "infnan", v |-> Inf(f, 0)]
+    ELSE IF IsNaN(f, x) \/ IsNaN(f, y) \/ IsNaN(f, z) THEN [k |-> "any", v |-> Zero(0)]   \* libstdc++ 12: hypot(0,0,NaN) = 0
+    ELSE RNone
 
 \* lerp(a, b, t) [c.math.lerp] for finite a, b: exact at t = 0 and t = 1, and lerp(a, a, t) = a for finite t
 SpecialLerp(f, a, b, t) ==
@@ -422,5 +429,6 @@ SpecialOK(f, req, r) ==
     CASE req.k = "nan" -> IsNaN(f, r)
       [] req.k = "val" -> r = req.v
       [] req.k = "num" -> ~IsNaN(f, r) /\ NumEq(r, req.v)
-      [] req.k = "none" -> TRUE
+      [] req.k = "infnan" -> IsNaN(f, r) \/ r = req.v
+      [] req.k \in {"none", "any"} -> TRUE
 =============================================================================
